@@ -74,7 +74,14 @@ func (t *Terminal) ExpectedReply(seq uint16, msg string) []byte {
 	if v, ok := t.protocolHandles[commandType]; ok {
 		header.ReplyID = uint16(v.ReplyProtocol())
 		header.PlatformSerialNumber = seq
-		body, _ = v.ReplyBody(jtMsg)
+		var err error
+		if body, err = v.ReplyBody(jtMsg); err != nil {
+			// 平台的ReplyBody失败时只记录日志不回复 所以这里也没有预期的回复
+			slog.Warn("reply body fail",
+				slog.String("msg", msg),
+				slog.Any("err", err))
+			return nil
+		}
 	}
 	return header.Encode(body)
 }
